@@ -521,6 +521,48 @@ static void wellformed(vf_rng *r, int want_sample, int quiet)
     }
 }
 
+/* ------------------------------------------------------------------ code-point append into a string object */
+/* a_utf_catc reserves room for the longest encoding plus the terminator before encoding in place: a string whose capacity
+   is exactly its length (built with the non-terminating block append) gets code points of every encoded length appended at
+   every length residue 0..23, so that a reservation that is too small for the 5- and 6-byte forms is an ASan report (seeded
+   change C18-F: + 5 instead of + 7 overruns only for code points >= 0x200000 at length residues 2 and 3 mod 8). */
+static void catc_append(vf_rng *r)
+{
+    static unsigned char const fill[24] = "abcdefghijklmnopqrstuvw";
+    size_t const L0 = (size_t)vf_below(r, 24);
+    unsigned const n = 1 + (unsigned)vf_below(r, 6);
+    unsigned char want[24 + 6 * 6 + 1];
+    size_t wn = L0, stop = 0, cnt;
+    a_str s;
+    a_str_ctor(&s);
+    if (L0 && a_str_catn_(&s, fill, L0) != 0) { a_str_dtor(&s); return; }
+    memcpy(want, fill, L0);
+    vf_log("a_utf_catc: %u code points onto a %zu-byte string of capacity %zu", n, L0, a_str_mem(&s));
+    for (unsigned i = 0; i < n; ++i)
+    {
+        uint32_t const c = random_cp_by_length(r);
+        unsigned const L = ref_len(c);
+        int rc;
+        vf_log(" a_utf_catc U+%X (%u bytes) at length %zu capacity %zu", c, L, a_str_len(&s), a_str_mem(&s));
+        rc = a_utf_catc(&s, c);
+        ++vf.evals;
+        VF_COUNT("utf_catc-into-tight-string");
+        if (c == 0) { continue; } /* U+0 encodes to nothing */
+        ref_enc(c, L, want + wn);
+        wn += L;
+        if (rc != 0 || a_str_len(&s) != wn || a_str_mem(&s) <= wn || memcmp(a_str_ptr(&s), want, wn) != 0 || a_str_ptr(&s)[wn] != 0)
+        {
+            VIOL(keyL("catc/content-or-terminator", L), "a_utf_catc(U+%X) onto %zu bytes: rc %d, length %zu (want %zu), capacity %zu, bytes %s", c, wn - L, rc, a_str_len(&s), wn, a_str_mem(&s),
+                 hex((unsigned char const *)a_str_ptr(&s), a_str_len(&s) < 40 ? a_str_len(&s) : 40));
+            a_str_dtor(&s);
+            return;
+        }
+    }
+    cnt = a_utf_len(&s, &stop);
+    (void)cnt;
+    a_str_dtor(&s);
+}
+
 /* ------------------------------------------------------------------ random byte strings */
 static void random_string(vf_rng *r)
 {
@@ -712,6 +754,7 @@ static void vf_case(uint64_t cno, vf_rng *r)
             vf.jr->text_len = 0;
             vf.jr->truncated = 0;
             wellformed(r, !(sampled & 1u << K_WELLFORMED), i >= 4);
+            if (i % 8 == 0) { catc_append(r); }
             if (vf.nsamples && !(sampled & 1u << K_WELLFORMED) && strstr(vf.samples[vf.nsamples - 1], "well-formed")) { sampled |= 1u << K_WELLFORMED; }
         }
         break;
